@@ -27,6 +27,7 @@ type metaActor struct {
 type metaRows struct {
 	subs  map[types.Uid]vfmem.SubRow
 	topic *vfmem.TopicRow
+	msgs  string // digest of message rows and deletion log
 }
 
 type metaStep struct {
@@ -80,6 +81,16 @@ func (sc *metaScn) rowsNow() metaRows {
 			cp.Tags = append([]string{}, tr.Tags...)
 			mr.topic = &cp
 		}
+		var sb strings.Builder
+		for _, m := range db.Msgs[sc.canon] {
+			fmt.Fprintf(&sb, "%d:%d:%v;", m.SeqId, m.DelId, m.Content != nil)
+		}
+		for _, d := range db.DelLog {
+			if d.Topic == sc.canon {
+				fmt.Fprintf(&sb, "L%d:%s:%d-%d;", d.DelId, d.DeletedFor, d.Low, d.Hi)
+			}
+		}
+		mr.msgs = sb.String()
 	})
 	return mr
 }
@@ -245,6 +256,9 @@ func metaRowsEqual(a, b metaRows) (bool, string) {
 	if (a.topic == nil) != (b.topic == nil) {
 		return false, "topic row existence"
 	}
+	if a.msgs != b.msgs {
+		return false, "message rows / deletion log"
+	}
 	if a.topic != nil {
 		ta, tb := a.topic, b.topic
 		if ta.Owner != tb.Owner || ta.Access != tb.Access || string(ta.Public) != string(tb.Public) || string(ta.Trusted) != string(tb.Trusted) ||
@@ -358,7 +372,15 @@ func (sc *metaScn) metaRandomStep() *metaStep {
 		return sc.do(a, "pub", nil, fmt.Sprintf("m%d", len(sc.steps)))
 	case k < 23:
 		if sc.lastSeq > 0 {
-			return sc.do(a, []string{"noteRead", "noteRecv"}[rng.Intn(2)], nil, fmt.Sprint(1+rng.Intn(sc.lastSeq)))
+			// NB: a {note read} beyond the received mark is a known finding of C08/C09 (cache drags recv, the store
+			// does not); it is driven by a directed scenario only, here recv always goes first.
+			sq := fmt.Sprint(1 + rng.Intn(sc.lastSeq))
+			st := sc.do(a, "noteRecv", nil, sq)
+			if rng.Intn(2) == 0 {
+				sc.after(st)
+				return sc.do(a, "noteRead", nil, sq)
+			}
+			return st
 		}
 		return sc.do(a, "pub", nil, fmt.Sprintf("m%d", len(sc.steps)))
 	default:
